@@ -499,6 +499,18 @@ def clash_contact(rng, tmpl_a, tmpl_b, dist, names=None):
     return st, (a.name, b.name)
 
 
+def clash_coincident(rng):
+    """two residues with one typed atom of each on bit-identical coordinates (distance exactly 0: superposed copies,
+    a ligand modelled onto an atom) - the strongest clash there is"""
+    tm = base_templates()
+    A, B = rng.choice(tm)[1], rng.choice(tm)[1]
+    st, (na, nb) = clash_contact(rng, A, B, 0.0)
+    ra, rb = st.residues
+    a = ra.find_atom(na)
+    atoms = [dataclasses.replace(x, x=a.x, y=a.y, z=a.z) if x.name == nb else x for x in rb.atoms]
+    return mk_structure([ra, mk_residue(rb, atoms)])
+
+
 def clash_straddles(rng, eps_list=(1e-3, 1e-2, 0.1)):
     """atom pairs at (r_a + r_b [+ 0.5]) +- eps for every pair of atom types; yields (tag, Structure3D)"""
     import rnapolis.clashfinder as CF
